@@ -22,13 +22,13 @@
 EXTENDS Integers, Sequences, FiniteSets, TLC, Json
 
 \* ---- scopes (parent relation) ; kind "class" scopes are skipped by name lookup from nested function scopes
-Scopes == {"mod", "F1", "G1", "C1", "init", "M1", "comp", "lam", "F2"}
-Parent == [mod |-> "mod", F1 |-> "mod", G1 |-> "F1", C1 |-> "mod", init |-> "C1", M1 |-> "C1", comp |-> "M1", lam |-> "F2", F2 |-> "mod"]
+Scopes == {"mod", "F1", "G1", "C1", "init", "M1", "comp", "lam", "F2", "F3"}
+Parent == [mod |-> "mod", F1 |-> "mod", G1 |-> "F1", C1 |-> "mod", init |-> "C1", M1 |-> "C1", comp |-> "M1", lam |-> "F2", F2 |-> "mod", F3 |-> "mod"]
 IsClass(s) == s = "C1"
 
 \* ---- binders: [name, scope where the name is bound]
-Binders == {"s1", "f1", "p1", "p2", "l1", "n1", "i1", "g1", "q1", "c1", "a1", "p3", "m1", "p4", "l2", "e1", "f2", "p5", "o1", "k1", "w1"}
-ScopeOf == [s1 |-> "mod", f1 |-> "mod", c1 |-> "mod", f2 |-> "mod",
+Binders == {"s1", "f1", "p1", "p2", "l1", "n1", "i1", "g1", "q1", "c1", "a1", "p3", "m1", "p4", "l2", "e1", "f2", "p5", "o1", "k1", "w1", "f3", "p6", "o2", "r1"}
+ScopeOf == [s1 |-> "mod", f1 |-> "mod", c1 |-> "mod", f2 |-> "mod", f3 |-> "mod", p6 |-> "F3", o2 |-> "F2", r1 |-> "F2",
             p1 |-> "F1", p2 |-> "F1", l1 |-> "F1", n1 |-> "F1", i1 |-> "F1", g1 |-> "F1",
             q1 |-> "G1",
             a1 |-> "C1", m1 |-> "C1",
@@ -48,7 +48,10 @@ Refs == { [id |-> 1, at |-> "F1", to |-> "p1"], [id |-> 2, at |-> "F1", to |-> "
           [id |-> 13, at |-> "F2", to |-> "c1"], [id |-> 14, at |-> "F2", to |-> "p5"], [id |-> 15, at |-> "F2", to |-> "o1"],
           [id |-> 16, at |-> "F2", to |-> "f1"], [id |-> 17, at |-> "F2", to |-> "s1"], [id |-> 18, at |-> "lam", to |-> "w1"],
           [id |-> 19, at |-> "lam", to |-> "p5"], [id |-> 20, at |-> "F2", to |-> "k1"],
-          [id |-> 21, at |-> "F1", to |-> "n1"], [id |-> 22, at |-> "F1", to |-> "i1"] }
+          [id |-> 21, at |-> "F1", to |-> "n1"], [id |-> 22, at |-> "F1", to |-> "i1"],
+          \* a function that returns an instance of the class, and locals declared from calls of functions (not constructors)
+          [id |-> 23, at |-> "F3", to |-> "c1"], [id |-> 24, at |-> "F3", to |-> "p6"], [id |-> 25, at |-> "F2", to |-> "f3"],
+          [id |-> 26, at |-> "F2", to |-> "o2"], [id |-> 27, at |-> "F2", to |-> "r1"] }
 
 \* ---- LEGB resolution of slot x from scope s under assignment id : binders -> slots
 RECURSIVE Resolve(_, _, _, _)
@@ -81,20 +84,24 @@ Ren(id) == [b \in Binders |-> <<"x", id[b]>>]
 BindsBySlotOnly == \A id \in Assignments : \A r \in Refs : Resolve(Ren(id), Ren(id)[r.to], r.at, TRUE) = Resolve(id, id[r.to], r.at, TRUE)
 
 \* ---- namings: slot -> string.  Pools are sequences; slot k (in a fixed order of the binders) takes pool[k]
-Order == <<"s1", "f1", "p1", "p2", "l1", "n1", "i1", "g1", "q1", "c1", "a1", "p3", "m1", "p4", "l2", "e1", "f2", "p5", "o1", "k1", "w1">>
+Order == <<"s1", "f1", "p1", "p2", "l1", "n1", "i1", "g1", "q1", "c1", "a1", "p3", "m1", "p4", "l2", "e1", "f2", "p5", "o1", "k1", "w1", "f3", "p6", "o2", "r1">>
 Pools == [
-  base    |-> <<"zqa", "zqb", "zqc", "zqd", "zqe", "zqf", "zqg", "Zqh", "zqi", "zqj", "zqk", "zql", "zqm", "zqn", "zqo", "zqp", "zqq", "zqr", "zqs", "zqt", "zqu">>,
-  prefix  |-> <<"v", "v_", "v__", "vv", "v_v", "vv_", "v_vv", "Vv", "v_a", "v_ab", "v_abc", "va", "vab", "vabc", "va_", "v_b", "vb", "v_bb", "vbb", "v_c", "vc">>,
-  dunder  |-> <<"a__b", "a__", "a__b__c", "b__a", "a_b", "ab__", "a___b", "A__b", "b__", "c__a", "c__", "a__c", "c__b", "b__c", "ab__c", "a__bc", "bc__a", "cb__a", "abc__", "d__a", "a__d">>,
-  words   |-> <<"var", "closure", "name", "block", "list_comp", "function", "args", "Class", "field", "parameter", "method", "argument", "local", "comp_for", "entry", "param", "value", "lambda_", "elem", "decl_var", "scope">>,
-  lengths |-> <<"x", "xxxxxxxxxxxxxxxxxxxxxxxx", "y", "yyyyyyyyyyyyyyyy", "z", "zzzzzzzzzzzz", "w", "Wwwwwwww", "u", "uuuuuuuuuuuuuuuuuuuuuuuuuuuuuuuu", "t", "tttt", "r", "rrrrrrrr", "q", "qqqqqq", "o", "oo", "k", "j", "jjjjjjjjjj">>,
-  digits  |-> <<"x1", "x10", "x11", "x2", "x20", "x100", "x01", "X1", "x1_", "x_1", "x1_0", "x12", "x21", "x121", "x112", "x3", "x30", "x31", "x13", "x4", "x40">>,
-  sufchain |-> <<"a", "ba", "cba", "dcba", "edcba", "fedcba", "gfedcba", "hgfedcba", "ihgfedcba", "jihgfedcba", "kjihgfedcba", "lkjihgfedcba", "mlkjihgfedcba", "nmlkjihgfedcba", "onmlkjihgfedcba", "ponmlkjihgfedcba", "qponmlkjihgfedcba", "rqponmlkjihgfedcba", "srqponmlkjihgfedcba", "tsrqponmlkjihgfedcba", "utsrqponmlkjihgfedcba">>,
-  sufchainrev |-> <<"utsrqponmlkjihgfedcba", "tsrqponmlkjihgfedcba", "srqponmlkjihgfedcba", "rqponmlkjihgfedcba", "qponmlkjihgfedcba", "ponmlkjihgfedcba", "onmlkjihgfedcba", "nmlkjihgfedcba", "mlkjihgfedcba", "lkjihgfedcba", "kjihgfedcba", "jihgfedcba", "ihgfedcba", "hgfedcba", "gfedcba", "fedcba", "edcba", "dcba", "cba", "ba", "a">>,
-  prechain |-> <<"a", "ab", "abc", "abcd", "abcde", "abcdef", "abcdefg", "abcdefgh", "abcdefghi", "abcdefghij", "abcdefghijk", "abcdefghijkl", "abcdefghijklm", "abcdefghijklmn", "abcdefghijklmno", "abcdefghijklmnop", "abcdefghijklmnopq", "abcdefghijklmnopqr", "abcdefghijklmnopqrs", "abcdefghijklmnopqrst", "abcdefghijklmnopqrstu">>,
-  prechainrev |-> <<"abcdefghijklmnopqrstu", "abcdefghijklmnopqrst", "abcdefghijklmnopqrs", "abcdefghijklmnopqr", "abcdefghijklmnopq", "abcdefghijklmnop", "abcdefghijklmno", "abcdefghijklmn", "abcdefghijklm", "abcdefghijkl", "abcdefghijk", "abcdefghij", "abcdefghi", "abcdefgh", "abcdefg", "abcdef", "abcde", "abcd", "abc", "ab", "a">>,
-  reverse |-> <<"zqs", "zqr", "zqq", "zqp", "zqo", "zqn", "zqm", "Zql", "zqk", "zqj", "zqi", "zqh", "zqg", "zqf", "zqe", "zqd", "zqc", "zqb", "zqa", "zzb", "zza">> ]
-IndexOf(b) == CHOOSE i \in DOMAIN Order : Order[i] = b
+  base    |-> <<"zqa", "zqb", "zqc", "zqd", "zqe", "zqf", "zqg", "Zqh", "zqi", "zqj", "zqk", "zql", "zqm", "zqn", "zqo", "zqp", "zqq", "zqr", "zqs", "zqt", "zqu", "zqv", "zqw", "zqx", "zqy">>,
+  prefix  |-> <<"v", "v_", "v__", "vv", "v_v", "vv_", "v_vv", "Vv", "v_a", "v_ab", "v_abc", "va", "vab", "vabc", "va_", "v_b", "vb", "v_bb", "vbb", "v_c", "vc", "vcc", "v_cc", "vc_", "v_d">>,
+  dunder  |-> <<"a__b", "a__", "a__b__c", "b__a", "a_b", "ab__", "a___b", "A__b", "b__", "c__a", "c__", "a__c", "c__b", "b__c", "ab__c", "a__bc", "bc__a", "cb__a", "abc__", "d__a", "a__d", "d__", "a__e", "e__a", "ae__">>,
+  words   |-> <<"var", "closure", "name", "block", "list_comp", "function", "args", "Class", "field", "parameter", "method", "argument", "local", "comp_for", "entry", "param", "value", "lambda_", "elem", "decl_var", "scope", "relay", "func_call", "indexer", "move_assign">>,
+  lengths |-> <<"x", "xxxxxxxxxxxxxxxxxxxxxxxx", "y", "yyyyyyyyyyyyyyyy", "z", "zzzzzzzzzzzz", "w", "Wwwwwwww", "u", "uuuuuuuuuuuuuuuuuuuuuuuuuuuuuuuu", "t", "tttt", "r", "rrrrrrrr", "q", "qqqqqq", "o", "oo", "k", "j", "jjjjjjjjjj", "i", "iiiiiiiiiiiiii", "h", "hhh">>,
+  digits  |-> <<"x1", "x10", "x11", "x2", "x20", "x100", "x01", "X1", "x1_", "x_1", "x1_0", "x12", "x21", "x121", "x112", "x3", "x30", "x31", "x13", "x4", "x40", "x41", "x14", "x5", "x50">>,
+  sufchain |-> <<"a", "ba", "cba", "dcba", "edcba", "fedcba", "gfedcba", "hgfedcba", "ihgfedcba", "jihgfedcba", "kjihgfedcba", "lkjihgfedcba", "mlkjihgfedcba", "nmlkjihgfedcba", "onmlkjihgfedcba", "ponmlkjihgfedcba", "qponmlkjihgfedcba", "rqponmlkjihgfedcba", "srqponmlkjihgfedcba", "tsrqponmlkjihgfedcba", "utsrqponmlkjihgfedcba", "vutsrqponmlkjihgfedcba", "wvutsrqponmlkjihgfedcba", "xwvutsrqponmlkjihgfedcba", "yxwvutsrqponmlkjihgfedcba">>,
+  sufchainrev |-> <<"yxwvutsrqponmlkjihgfedcba", "xwvutsrqponmlkjihgfedcba", "wvutsrqponmlkjihgfedcba", "vutsrqponmlkjihgfedcba", "utsrqponmlkjihgfedcba", "tsrqponmlkjihgfedcba", "srqponmlkjihgfedcba", "rqponmlkjihgfedcba", "qponmlkjihgfedcba", "ponmlkjihgfedcba", "onmlkjihgfedcba", "nmlkjihgfedcba", "mlkjihgfedcba", "lkjihgfedcba", "kjihgfedcba", "jihgfedcba", "ihgfedcba", "hgfedcba", "gfedcba", "fedcba", "edcba", "dcba", "cba", "ba", "a">>,
+  prechain |-> <<"a", "ab", "abc", "abcd", "abcde", "abcdef", "abcdefg", "abcdefgh", "abcdefghi", "abcdefghij", "abcdefghijk", "abcdefghijkl", "abcdefghijklm", "abcdefghijklmn", "abcdefghijklmno", "abcdefghijklmnop", "abcdefghijklmnopq", "abcdefghijklmnopqr", "abcdefghijklmnopqrs", "abcdefghijklmnopqrst", "abcdefghijklmnopqrstu", "abcdefghijklmnopqrstuv", "abcdefghijklmnopqrstuvw", "abcdefghijklmnopqrstuvwx", "abcdefghijklmnopqrstuvwxy">>,
+  prechainrev |-> <<"abcdefghijklmnopqrstuvwxy", "abcdefghijklmnopqrstuvwx", "abcdefghijklmnopqrstuvw", "abcdefghijklmnopqrstuv", "abcdefghijklmnopqrstu", "abcdefghijklmnopqrst", "abcdefghijklmnopqrs", "abcdefghijklmnopqr", "abcdefghijklmnopq", "abcdefghijklmnop", "abcdefghijklmno", "abcdefghijklmn", "abcdefghijklm", "abcdefghijkl", "abcdefghijk", "abcdefghij", "abcdefghi", "abcdefgh", "abcdefg", "abcdef", "abcde", "abcd", "abc", "ab", "a">>,
+  \* names that begin with the names of builtin types and of the words the output language uses for them
+  typewords |-> <<"int_", "intx", "str_", "strs", "bool_", "float_", "list_", "Dict_", "dict_", "tuple_", "void_", "auto_", "std_", "double_", "char_", "long_", "size_t_", "string_", "vector_", "map_", "None_", "self_", "this_", "const_", "type_">>,
+  reverse |-> <<"zqs", "zqr", "zqq", "zqp", "zqo", "zqn", "zqm", "Zql", "zqk", "zqj", "zqi", "zqh", "zqg", "zqf", "zqe", "zqd", "zqc", "zqb", "zqa", "zzb", "zza", "zzc", "zzd", "zze", "zzf">> ]
+\* (a function, so that TLC evaluates it once)
+Idx == [b \in Binders |-> CHOOSE i \in DOMAIN Order : Order[i] = b]
+IndexOf(b) == Idx[b]
 NameOf(id, pool, b) == Pools[pool][IndexOf(id[b])]          \* the name of binder b = pool entry of its slot
 
 \* ---- program text (T = literal text, B = identifier of a binder)
@@ -121,10 +128,14 @@ Tokens == <<
   T("\tdef "), B("m1"), T("(self, "), B("p4"), T(": int) -> int:\n"),
   T("\t\t"), B("l2"), T(" = ["), B("e1"), T(" * "), B("p4"), T(" for "), B("e1"), T(" in range("), B("p4"), T(")]\n"),
   T("\t\treturn self."), B("a1"), T(" + "), B("l2"), T("[0]\n\n"),
+  T("def "), B("f3"), T("("), B("p6"), T(": int) -> "), B("c1"), T(":\n"),
+  T("\treturn "), B("c1"), T("("), B("p6"), T(")\n\n"),
   T("def "), B("f2"), T("("), B("p5"), T(": int) -> int:\n"),
   T("\t"), B("o1"), T(" = "), B("c1"), T("("), B("p5"), T(")\n"),
+  T("\t"), B("o2"), T(" = "), B("f3"), T("("), B("p5"), T(")\n"),
+  T("\t"), B("r1"), T(" = "), B("f1"), T("("), B("p5"), T(", "), B("s1"), T(")\n"),
   T("\t"), B("k1"), T(" = apply_fn(lambda "), B("w1"), T(": "), B("w1"), T(" + "), B("p5"), T(", 2)\n"),
-  T("\treturn "), B("o1"), T("."), B("m1"), T("("), B("f1"), T("("), B("p5"), T(", "), B("s1"), T(")) + "), B("k1"), T("\n")
+  T("\treturn "), B("o1"), T("."), B("m1"), T("("), B("f1"), T("("), B("p5"), T(", "), B("s1"), T(")) + "), B("k1"), T(" + "), B("o2"), T("."), B("m1"), T("("), B("r1"), T(")\n")
 >>
 RECURSIVE Render(_, _, _)
 Render(id, pool, i) == IF i > Len(Tokens) THEN ""
@@ -137,5 +148,12 @@ PoolsInjective == \A pool \in DOMAIN Pools : \A i, j \in DOMAIN Order : i # j =>
 MergedPair(id) == {<<b1, b2>> \in Pairs : IndexOf(b1) < IndexOf(b2) /\ id[b1] = id[b2]}
 Case(id, pool) == [pattern |-> [b \in Binders |-> id[b]], merged |-> MergedPair(id), pool |-> pool, text |-> Text(id, pool),
                    names |-> [b \in Binders |-> NameOf(id, pool, b)]]
-Emit == \A id \in Assignments : \A pool \in DOMAIN Pools : PrintT("CASE " \o ToJson(Case(id, pool)))
+\* the text of a case is Text(id, pool); to keep the evaluation short TLC prints the token list once and the names per
+\* case (the harness substitutes), and the full text only for the injective assignment (the harness compares its own
+\* substitution with it)
+Slim(id, pool) == [pattern |-> [b \in Binders |-> id[b]], merged |-> MergedPair(id), pool |-> pool,
+                   names |-> [b \in Binders |-> NameOf(id, pool, b)]]
+Emit == /\ PrintT("TOKENS " \o ToJson(Tokens))
+        /\ \A pool \in DOMAIN Pools : PrintT("FULL " \o ToJson(Case(Injective, pool)))
+        /\ \A id \in Assignments : \A pool \in DOMAIN Pools : PrintT("CASE " \o ToJson(Slim(id, pool)))
 =============================================================================
